@@ -12,7 +12,8 @@ theorem ofSize_eq (n : Nat) : ofSize n = List.replicate n false := by
   intro j _
   rw [ofSize_getD, List.getD_eq_getElem?_getD, replicate_false_getD]
 
-theorem step_eq (c : Bool) (st : Store) (op : Op) (h : c = false → op.isResetAll = false) :
+theorem step_eq (c : Bool) (st : Store) (op : Op) (h : c = false → op.isResetAll = false)
+    (hr : op.arg < posLimit) :
     step st op = .ok (Ref.step c st op) := by
   cases op with
   | resetAll r =>
@@ -23,35 +24,76 @@ theorem step_eq (c : Bool) (st : Store) (op : Op) (h : c = false → op.isResetA
   | newSized r n => simp only [step, Ref.step, ofSize_eq]
   | setAll r => simp only [step, Ref.step, setAll_eq, rmap]
   | flipAll r => rfl
-  | set r pos val => simp only [step, Ref.step, set_eq, rmap]
-  | reset r pos => simp only [step, Ref.step, reset_eq, rmap]
-  | flip r pos => simp only [step, Ref.step, flip_eq, rmap]
-  | idxAssign r pos val => simp only [step, Ref.step, idxAssign_eq, rmap]
-  | idxRead r pos => simp only [step, Ref.step, idxRead_eq, rmap]
+  | set r pos val => simp only [step, Ref.step, set_eq _ pos _ hr, rmap]
+  | reset r pos => simp only [step, Ref.step, reset_eq _ pos hr, rmap]
+  | flip r pos => simp only [step, Ref.step, flip_eq _ pos hr, rmap]
+  | idxAssign r pos val => simp only [step, Ref.step, idxAssign_eq _ pos _ hr, rmap]
+  | idxRead r pos => simp only [step, Ref.step, idxRead_eq _ pos hr, rmap]
   | resize r n val => rfl
   | andA r s => simp only [step, Ref.step, andAssign_eq, rmap]
   | orA r s => simp only [step, Ref.step, orAssign_eq, rmap]
   | xorA r s => simp only [step, Ref.step, xorAssign_eq, rmap]
-  | shlA r k => simp only [step, Ref.step, shlAssign_eq, rmap]
-  | shrA r k => simp only [step, Ref.step, shrAssign_eq, rmap]
+  | shlA r k => simp only [step, Ref.step, shlAssign_eq _ k hr, rmap]
+  | shrA r k => simp only [step, Ref.step, shrAssign_eq _ k hr, rmap]
   | and r s d => simp only [step, Ref.step, bitAnd, andAssign_eq, rmap]
   | or r s d => simp only [step, Ref.step, bitOr, orAssign_eq, rmap]
   | xor r s d => simp only [step, Ref.step, bitXor, xorAssign_eq, rmap]
-  | shl r k d => simp only [step, Ref.step, shl_eq, rmap]
-  | shr r k d => simp only [step, Ref.step, shr_eq, rmap]
+  | shl r k d => simp only [step, Ref.step, shl_eq _ k hr, rmap]
+  | shr r k d => simp only [step, Ref.step, shr_eq _ k hr, rmap]
   | not r d => rfl
   | copy r d => rfl
 
 theorem run_eq (c : Bool) : ∀ (ops : List Op) (st : Store), (c = false → ∀ op ∈ ops, op.isResetAll = false) →
+    (∀ op ∈ ops, op.arg < posLimit) →
     run st ops = .ok (Ref.run c st ops) := by
   intro ops
   induction ops with
-  | nil => intro st _; rfl
+  | nil => intro st _ _; rfl
   | cons op ops ih =>
-    intro st h
+    intro st h hr
     simp only [run, Ref.run]
-    rw [step_eq c st op (fun hc => h hc op (List.mem_cons_self ..))]
-    exact ih _ (fun hc o ho => h hc o (List.mem_cons_of_mem _ ho))
+    rw [step_eq c st op (fun hc => h hc op (List.mem_cons_self ..)) (hr op (List.mem_cons_self ..))]
+    exact ih _ (fun hc o ho => h hc o (List.mem_cons_of_mem _ ho)) (fun o ho => hr o (List.mem_cons_of_mem _ ho))
+
+/-- outside the modelled range the model is silent: a positional operation with an argument of
+    2^51 or more is `oob` ("not modelled"), never `ok` -/
+theorem step_out_of_range (st : Store) (op : Op) (h : posLimit ≤ op.arg) :
+    ∃ w, step st op = .oob w := by
+  have hn : ¬ op.arg < posLimit := by omega
+  cases op <;> simp only [Op.arg] at hn <;>
+    first
+    | (exfalso; exact hn (by unfold posLimit; omega))
+    | (simp only [step, set, reset, flip, idxAssign, idxRead, shlAssign, shrAssign, shl, shr, inRange, if_neg hn, rmap]
+       exact ⟨_, rfl⟩)
+
+/-! ## conversions from `std::bitset< N>` -/
+
+/-- the copy loop `for idx in [0, N): mData[idx] = other[idx]` over a vector of N bits -/
+theorem bsLoop (other a : Bits) (h : a.length = other.length) :
+    forUp (bsBody other) other.length 0 a = .ok other := by
+  obtain ⟨v, h1, h2, h3⟩ := forUp_inv
+    (fun i (v : Bits) => v.length = other.length ∧
+      ∀ j, j < i → v.getD j false = other.getD j false)
+    (bsBody other) other.length 0 a ⟨h, by intro j hj; omega⟩
+    (by
+      intro i s _ hi ⟨hl, hb⟩
+      have h1 : i < other.length := by omega
+      have h2 : i < s.length := by omega
+      refine ⟨s.set i (other.getD i false), by simp only [bsBody, rd_ok h1, wr_ok h2], by simp [hl], ?_⟩
+      intro j hj
+      rw [getD_set _ _ _ _ h2]
+      by_cases hji : j = i
+      · subst hji; rw [if_pos rfl]
+      · rw [if_neg hji]; exact hb j (by omega))
+  rw [h1]
+  congr 1
+  exact ext_bit h2 (fun j hj => h3 j (by omega))
+
+theorem ofBitset_eq (other : Bits) : ofBitset other = .ok other := by
+  unfold ofBitset; exact bsLoop other _ (by simp)
+
+theorem assignBitset_eq (v other : Bits) : assignBitset v other = .ok other := by
+  unfold assignBitset; exact bsLoop other _ (resize_length _ _ _)
 
 theorem observe_eq (v : Bits) : observe v = Ref.observe v := by
   unfold observe Ref.observe
